@@ -24,17 +24,18 @@ from harness.runner import CaseOut, case_hash
 ID = 'C05'
 LEVEL = 'exploration'
 RULE = ('cases = (backend, tls-required flag, sequence of indices into an '
-        'alphabet of 52 command instances). Exhaustive over all sequences of '
+        'alphabet of 54 command instances). Exhaustive over all sequences of '
         'length <= 2 (quick) / <= 3 (thorough) on dict without TLS; '
         'Hypothesis sequences up to length 30 incl. maildir and '
         'TLS-required configurations. Non-trivial = the sequence contains a '
         'command that is out of state when issued (by the reference '
         'machine); distinct by case hash.')
-EXHAUSTIVE_NOTE = ('all sequences over the 52-instance alphabet up to length '
+EXHAUSTIVE_NOTE = ('all sequences over the 54-instance alphabet up to length '
                    '2 (quick) or 3 (thorough) from the initial state, and all '
                    'sequences up to length 2 after each of the prefixes LOGIN, '
-                   'LOGIN+SELECT INBOX, LOGIN+EXAMINE INBOX; dict backend, no '
-                   'TLS')
+                   'LOGIN+SELECT INBOX, LOGIN+EXAMINE INBOX, LOGIN+CREATE '
+                   'Tmp+SELECT Tmp (with and without Tmp then being deleted '
+                   'by another session); dict backend, no TLS')
 ASSUMPTIONS = ['bad_command_limit=None so that the state probes (which are '
                'answered BAD when out of state) do not trigger the forced '
                'disconnect; C06 keeps the default',
@@ -103,6 +104,9 @@ ALPHABET: list[tuple[str, str, list[bytes]]] = [
     ('UID-EXPUNGE', 'sel', [b'UID EXPUNGE 1:*']),
     ('IDLE', 'sel', [b'IDLE', b'DONE']),
     ('IDLE-notdone', 'sel', [b'IDLE', b'WHAT']),
+    ('SELECT-Tmp', 'auth', [b'SELECT Tmp']),
+    # not a command of this connection: *another* session deletes Tmp
+    ('ENV-DELETE-Tmp', 'env', [b'DELETE Tmp']),
 ]
 N = len(ALPHABET)
 
@@ -112,7 +116,11 @@ def enumerate_cases(tier: str) -> Any:
     names = [a[0] for a in ALPHABET]
     login = names.index('LOGIN-good')
     prefixes = [[], [login], [login, names.index('SELECT-INBOX')],
-                [login, names.index('EXAMINE-INBOX')]]
+                [login, names.index('EXAMINE-INBOX')],
+                # a mailbox of its own selected, which somebody may delete
+                [login, names.index('CREATE-Tmp'), names.index('SELECT-Tmp')],
+                [login, names.index('CREATE-Tmp'), names.index('SELECT-Tmp'),
+                 names.index('ENV-DELETE-Tmp')]]
     for prefix in prefixes:
         # the bare prefix space is the plain exhaustive one; the warm
         # prefixes put every sequence into the authenticated, selected and
@@ -128,7 +136,8 @@ def strategy(tier: str) -> Any:
     idx = st.integers(0, N - 1)
     # bias towards getting authenticated / selected early
     warm = st.sampled_from([[], [5], [8], [5, 14], [5, 17], [8, 15], [13, 5],
-                            [5, 14, 34], [5, 17, 34]])
+                            [5, 14, 34], [5, 17, 34], [5, 20, 52],
+                            [5, 20, 52, 53]])
     return st.tuples(st.sampled_from(['dict', 'dict', 'dict', 'maildir']),
                      st.booleans(), warm,
                      st.lists(idx, min_size=1, max_size=30)).map(
@@ -143,12 +152,20 @@ class Model:
         self.tls_required = tls
         self.tls_done = False
         self.exists = {'INBOX', 'Other', 'Sink'}
+        #: the selected mailbox has been deleted under this connection
+        self.doomed = False
 
     def snapshot(self) -> tuple[Any, ...]:
         return (self.auth, self.sel, self.out)
 
     def step(self, name: str, cls: str) -> tuple[str, bool]:
         """Returns (expected outcome OK|REFUSED|ANY, out_of_state)."""
+        if cls == 'env':
+            if 'Tmp' in self.exists:
+                self.exists.discard('Tmp')
+                if self.sel and self.sel[0] == 'Tmp':
+                    self.doomed = True
+            return 'ANY', False
         if cls == 'bad':
             return 'REFUSED', False
         if cls == 'any':
@@ -174,6 +191,7 @@ class Model:
             if name.startswith(('SELECT-', 'EXAMINE-')):
                 target = name.split('-', 1)[1]
                 self.sel = None
+                self.doomed = False
                 if target in self.exists:
                     self.sel = (target, name.startswith('EXAMINE'))
                     return 'OK', False
@@ -190,12 +208,16 @@ class Model:
                 if 'Tmp' not in self.exists:
                     return 'REFUSED', False
                 self.exists.discard('Tmp')
+                if self.sel and self.sel[0] == 'Tmp':
+                    self.doomed = True
                 return 'OK', False
             if name == 'RENAME-Tmp':
                 if 'Tmp' not in self.exists or 'Tmp2' in self.exists:
                     return 'REFUSED', False
                 self.exists.discard('Tmp')
                 self.exists.add('Tmp2')
+                if self.sel and self.sel[0] == 'Tmp':
+                    self.doomed = True
                 return 'OK', False
             if name in ('SUBSCRIBE', 'UNSUBSCRIBE'):
                 return 'ANY', False
@@ -205,8 +227,12 @@ class Model:
             return 'REFUSED', True
         ro = self.sel[1]
         if name == 'CLOSE':
+            # always succeeds and deselects, also when the mailbox is gone
             self.sel = None
+            self.doomed = False
             return 'OK', False
+        if self.doomed:
+            return 'ANY', False      # NO, or BYE and the end
         if name in ('CHECK', 'SEARCH', 'UID-SEARCH', 'IDLE'):
             return 'OK', False
         if name == 'IDLE-notdone':
@@ -285,6 +311,15 @@ def run_case(case: dict[str, Any]) -> CaseOut:
             name, cls, wire = ALPHABET[idx % N]
             if model.out or conn.done:
                 break
+            if cls == 'env':
+                if model.auth:
+                    probe.cmd(b'p ' + wire[0] + b'\r\n')
+                    model.step(name, cls)
+                    if model.doomed:
+                        nontrivial = True
+                        out.label('selected-mailbox-deleted-by-another-'
+                                  'session')
+                continue
             before_model = model.snapshot()
             need_fp = True
             fp_before = _fingerprint(probe, names)
@@ -299,7 +334,21 @@ def run_case(case: dict[str, Any]) -> CaseOut:
             m = re.search(rb'(^|\r\n)' + re.escape(tag) + rb' (OK|NO|BAD)',
                           got)
             cond = m.group(2) if m else None
+            if model.doomed and conn.done and b'* BYE' in got:
+                # the selected mailbox was deleted by somebody else: the
+                # server may end the connection with BYE at any command
+                out.label('bye-after-selected-mailbox-was-deleted')
+                break
             expect, oos = model.step(name, cls)
+            if model.doomed and conn.done and b'* BYE' in got and \
+                    cond == b'OK':
+                # it deleted / renamed its own selected mailbox
+                out.label('bye-after-selected-mailbox-was-deleted')
+                break
+            mid = re.search(rb'MAILBOXID \(([^)]+)\)', got)
+            if mid and name.startswith(('SELECT-', 'EXAMINE-')) \
+                    and cond == b'OK':
+                ids[mid.group(1)] = name.split('-', 1)[1]
             if oos:
                 nontrivial = True
                 out.label('out-of-state:' + cls)
@@ -335,7 +384,11 @@ def run_case(case: dict[str, Any]) -> CaseOut:
                 out.fail(f'auth-state-wrong-after:{name}',
                          f'{desc}: STATUS probe says authenticated='
                          f'{real_auth}, reference machine says {model.auth}')
-            if real_sel != (model.sel is not None):
+            if conn.done and model.doomed:
+                break                  # ended with BYE: allowed
+            if model.doomed:
+                pass      # between deletion and CLOSE: NO or BYE, not probed
+            elif real_sel != (model.sel is not None):
                 out.fail(f'selected-state-wrong-after:{name}',
                          f'{desc}: SEARCH probe says selected={real_sel}, '
                          f'reference machine says {model.sel}')
@@ -351,7 +404,7 @@ def run_case(case: dict[str, Any]) -> CaseOut:
                     out.fail(f'refused-command-changed-data:{name}',
                              f'{desc}: before {fp_before} after {fp_after}')
                 if not name.startswith(('SELECT', 'EXAMINE')) and \
-                        (real_auth, real_sel) != (
+                        not model.doomed and (real_auth, real_sel) != (
                             before_model[0], before_model[1] is not None):
                     out.fail(f'refused-command-changed-state:{name}', desc)
     finally:
